@@ -78,6 +78,9 @@ var lgTable = []lgEntry{
 	{Rule: "L1", Func: "tensor.doMaskAll", Site: "range %ts.mask", Goal: "(%ts.IsMasked() && (%ts.Size() == len(%ts.mask)))", Props: []string{"C15"}, Why: "the whole-mask fold is the fold over the tensor's elements only when the mask covers exactly those elements (a view's mask window is longer)"},
 	{Rule: "L1", Func: "tensor.doMaskAny", Site: "range %ts.mask", Goal: "(%ts.IsMasked() && (%ts.Size() == len(%ts.mask)))", Props: []string{"C15"}, Why: "the whole-mask fold is the fold over the tensor's elements only when the mask covers exactly those elements"},
 	{Rule: "L1", Func: "tensor.doMaskCt", Site: "range %ts.mask", Goal: "(%ts.IsMasked() && (%ts.Size() == len(%ts.mask)))", Props: []string{"C15"}, Why: "the whole-mask count is the count over the tensor's elements only when the mask covers exactly those elements"},
+	// ---- native (zero-copy) conversions: windows of the raw backing array ------------------------
+	{Rule: "L1", Func: "native.checkNativeIterable", Site: "return nil", Goal: "(!$t.RequiresIterator() && !$t.F())", Props: []string{"C04", "C16"}, Why: "the native [][]T / [][][]T views are windows of the raw backing array: only a tensor that needs no iterator (not sliced with gaps, not lazily transposed, not masked) and is row-major may be converted"},
+	{Rule: "L1", Func: "native.checkNativeSelectable", Site: "return nil", Goal: "(!$t.RequiresIterator() && !$t.F())", Props: []string{"C04", "C16"}, Why: "native selection hands out windows of the raw backing array"},
 	// ---- writers (C14) -------------------------------------------------------------------------------
 	{Rule: "L1", Func: "tensor.(*Dense).WriteNpy", Site: "for ($r.len() > %i)", Decides: []string{"$r.RequiresIterator()"}, Props: []string{"C14", "C16"}, Why: "the flat Get(i) loop emits storage order; .npy is declared C-ordered"},
 	{Rule: "L1", Func: "tensor.(*Dense).GobEncode", Site: ".Encode(&%data)", Decides: []string{"$r.IsMaterializable()"}, Props: []string{"C14"}, Why: "a view's whole storage window is written under the view's shape: the decoder's sanity check rejects it"},
